@@ -347,9 +347,22 @@ def alpha_data(strings):
 
 # non-ASCII alphabetic prefixes (Latin-1, Cyrillic, sharp s): legal wherever `str.isalpha` says so; only used in groups
 # whose members are all of the 8.3.0 generation (before 8.3.0 every non-ASCII character in the text is CHARACTER_INVALID)
-UNICODE_GROUPS_QUICK = [[("", "8.3.0"), ("\u00e9:", "score_2.0.0")]]
+UNICODE_GROUPS_QUICK = [[("stra\u00dfe:", "score_2.0.0"), ("", "8.3.0"), ("\u00e9:", "8.3.0")]]   # sharp s: casefold() is longer
 UNICODE_GROUPS_MORE = [[("\u0416:", "8.3.0"), ("stra\u00dfe:", "score_2.0.0")],
                        [("\u00f1u:", "score_2.0.0"), ("", "8.3.0"), ("\u0436\u00e9:", "8.3.0")]]
+
+
+def length_changing(text):
+    """the text holds a character whose casefold() has another length (sharp s, ligatures, dotted capital I).  Registered
+    finding C12-casefold-length-offsets: the implementation measures the positions inside lookup errors on case-folded
+    text, so with such a character positions inside a tag may be shifted on the unchanged tree.  For such texts - and only
+    for them - positions inside tags are left out of the comparisons below; error kinds, codes, the tag's identity (span),
+    node, remainder and forms are still compared."""
+    return any(len(c.casefold()) != 1 for c in text)
+
+
+def no_positions(r):
+    return {k: v for k, v in r.items() if k not in ("a", "b")} if "err" in r else r
 
 
 def canon_find(m):
@@ -444,7 +457,10 @@ def run_group(ctx, members, n_ann, hed):
     for text, m in zip(texts + bad, ans[0]["results"]):
         r = impl_find(HedTag, group, text)
         ctx.evaluations += 1
-        if canon_find(m) != r:
+        loose = length_changing(text)
+        if loose:
+            ctx.count("lookup:positions-left-out(length-changing casefold)")
+        if (no_positions(canon_find(m)) != no_positions(r)) if loose else (canon_find(m) != r):
             ctx.disagree("Group.find = HedTag lookup in HedSchemaGroup", {"group": [list(x) for x in members], "text": text},
                          canon_find(m), r)
         if text in find_cases and find_cases[text][0]:
@@ -457,7 +473,7 @@ def run_group(ctx, members, n_ann, hed):
                         "b": None if r0["b"] is None else r0["b"] + len(p)}
             else:
                 want = dict(r0, ns=p, short=p + r0["short"], long=p + r0["long"])
-            if want != r:
+            if (no_positions(want) != no_positions(r)) if loose else (want != r):
                 ctx.violation("prefixed-spelling-resolves-differently-from-unprefixed",
                               {"group": [list(x) for x in members], "text": text},
                               {"prefixed": r, "unprefixed": r0})
@@ -679,7 +695,8 @@ def prefix_tags(text, p):
             j += 1
         run = text[i:j]
         k = len(run) - len(run.lstrip(" "))
-        out.append(run[:k] + (p if run.strip(" ") else "") + run[k:])
+        # a run that is blank under str.strip() (e.g. a lone U+00A0) is no tag in the unprefixed text: it gets no prefix
+        out.append(run[:k] + (p if run.strip() else "") + run[k:])
         i = j
     return "".join(out)
 
@@ -745,7 +762,10 @@ def run_group_validate(ctx, members, n_each, hed):
                 tp = tp.replace(p, rng.choice(["zz:", "Q1:", p.upper() if p.isascii() and p.upper() != p else "yy:"]), 1) if p else "zz:" + tp
             cases.append((p, name, t, tp, ph, structured))
     chars = sorted({c for c5 in cases for c in c5[3] if ord(c) > 127})
-    if [c for c in chars if c.casefold() != c or c.isdigit()]:
+    # the model folds with ASCII lower-casing: the generated TAG texts must stay inside that assumption; the members'
+    # PREFIXES need not (a prefix is cut off before anything is folded, and compared exactly)
+    body_chars = {c for c5 in cases for c in c5[2] if ord(c) > 127}
+    if [c for c in body_chars if c.casefold() != c or c.isdigit()]:
         raise RuntimeError("alphabet holds characters outside the model's assumptions")
     mm = []
     for p, name in members:
@@ -780,6 +800,11 @@ def run_group_validate(ctx, members, n_each, hed):
             continue
         mine = sorted((c01.canon_model(i) for i in m["issues"]), key=json.dumps)
         impl0 = impl
+        if length_changing(tp):
+            # see `length_changing`: positions inside a tag (index 4) are not compared for such texts, everything else is
+            ctx.count("gv:positions-left-out(length-changing casefold)")
+            mine = sorted((x[:4] + [None] + x[5:] for x in mine), key=json.dumps)
+            impl = sorted((x[:4] + [None] + x[5:] for x in impl), key=json.dumps)
         ctx.count("gv:compared")
         ctx.count("gv:theorem-hypotheses-" + ("hold" if m["hmod"] and m["hreq"] else "fail(mixed generation)" if not m["hmod"] else "fail"))
         if m["hmod"] and m["hreq"] and not m["eq_single"]:
@@ -815,7 +840,7 @@ GV_GROUPS = [
     [("m:", "testlib_2.0.0,score_1.1.0,testlib_3.0.0"), ("", "8.2.0")],
 ]
 GV_MERGED_QUICK = [("", "8.2.0"), ("tl:", "testlib_2.0.0,score_1.1.0")]
-GV_UNICODE_QUICK = [("", "8.3.0"), ("\u00e9:", "score_2.0.0")]
+GV_UNICODE_QUICK = [("", "8.3.0"), ("\u00e9:", "score_2.0.0"), ("stra\u00dfe:", "8.3.0")]
 
 
 # ------------------------------------------------------------------------------------ version lists
@@ -1271,7 +1296,7 @@ def run_prefix_syntax(ctx, hed):
     from hed.validator.util.char_util import CharValidator
     import copy
     pres = ["sc", "sc:", "s1", "s1:", "", ":", "a-b", "Ab", "abc:", "a b", "x_", "1", "\u00e9", "\u00f1u:", "\u0416", "stra\u00dfe",
-            "\u0436\u00e9:", "\u00e91", "\u00f1_:", "e\u0301", "\u0301:", "\u00aa", "\u4e2d", "\u00e9 :", "\u01c5"]
+            "\u0436\u00e9:", "\u00e91", "\u00f1_:", "e\u0301", "\u0301:", "\u00aa", "\u4e2d", "\u00e9 :", "\u01c5", "\u00df:", "\ufb01x:", "\u0130d:", "stra\u00dfe:"]
     ans = ctx.model.batch([{"op": "c13.prefix", "ns": p, "alpha": alpha_data([p])} for p in pres])
     s = load_schema_version("8.3.0")
     for p, m in zip(pres, ans):
@@ -1299,6 +1324,15 @@ def run_prefix_syntax(ctx, hed):
             ctx.disagree("prefixIssue = _check_invalid_prefix_issues", {"prefix": ns, "text": ns + "Red"}, m2["issue"], flagged)
         if r != "INVALID_LIBRARY_PREFIX" and tag.schema_namespace == r and flagged:
             ctx.violation("loaded-prefix-reported-on-its-own-tag", {"prefix": ns, "text": ns + "Red"}, "TAG_NAMESPACE_PREFIX_INVALID")
+        if r != "INVALID_LIBRARY_PREFIX" and tag.schema_namespace == r:
+            # a tag under a prefix that loaded is the tag of the unprefixed spelling (also when casefold() changes the
+            # length of the prefix: sharp s, ligatures, dotted capital I)
+            t0 = HedTag("Red", s)
+            for text in (ns + "Red", ns + "Property/Sensory-property/Sensory-attribute/Visual-attribute/Color/CSS-color/Red-color/Red"):
+                tg = HedTag(text, sc)
+                if tg._schema_entry is None or tg._schema_entry.name != t0._schema_entry.name or tg.short_tag != ns + t0.short_tag:
+                    ctx.violation("prefixed-spelling-resolves-differently-from-unprefixed", {"prefix": ns, "text": text},
+                                  None if tg._schema_entry is None else tg._schema_entry.name)
 
 
 # ------------------------------------------------------------------------------------ entry points
@@ -1383,6 +1417,12 @@ def replay(ctx, rec):
             ctx.disagree("setPrefix/prefixIssue = set_schema_prefix/_check_invalid_prefix_issues", case, m, [loaded, flagged])
         if loaded and flagged:
             ctx.violation("loaded-prefix-reported-on-its-own-tag", case, "TAG_NAMESPACE_PREFIX_INVALID")
+        if loaded and case.get("text", "").startswith(ns):
+            tg, t0 = HedTag(case["text"], sc), HedTag(case["text"][len(ns):], load_schema_version("8.3.0"))
+            print("resolves to:", None if tg._schema_entry is None else tg._schema_entry.name, "| unprefixed:", t0._schema_entry.name)
+            if tg._schema_entry is None or tg._schema_entry.name != t0._schema_entry.name or tg.short_tag != ns + t0.short_tag:
+                ctx.violation("prefixed-spelling-resolves-differently-from-unprefixed", case,
+                              None if tg._schema_entry is None else tg._schema_entry.name)
         return
     if "gv_group" in case:
         from harness.props import c01
